@@ -170,3 +170,16 @@ func TestC13RegressWriteLimits(t *testing.T) {
 		}
 	}
 }
+
+// All 256 codes in use for glyphs 1..256 with every glyph a range of its own
+// (a shuffled encoding): "cff: too many segments" instead of a main table of
+// 255 codes plus one supplemental code.
+func TestC13RegressEncoding256Runs(t *testing.T) {
+	for _, seed := range []uint64{1, 2, 12345} {
+		s := baseSpec()
+		s.N = 300
+		s.NameMode = nameCustom
+		s.EncMode, s.EncCount, s.EncSeed = encShuffled, 256, seed
+		mustRoundTrip(t, s)
+	}
+}
